@@ -115,8 +115,14 @@ def r03b(model: Model, rr: RuleResult):
         rr.bad(fi, app, f"layer glyph name comes from {srcs}", construct="_colr0_layers: glyph_name definitions")
     t = model.func("write_font", "_create_transformed_glyph")
     c2 = [c for c in calls_in(t) if norm(c.func) == "Component"]
-    if len(c2) == 1 and norm(kwarg(c2[0], "baseGlyph")) == "paint.glyph" and norm(kwarg(c2[0], "transformation")) == "transform":
-        rr.ok("_create_transformed_glyph: Component(baseGlyph=paint.glyph, transformation=transform)")
+    tcfg = cfg_of(t)
+    draws = [c for c in calls_in(t) if callee_tail(c) in ("draw", "drawPoints")]
+    if len(c2) == 1 and norm(kwarg(c2[0], "baseGlyph")) == "paint.glyph" and norm(kwarg(c2[0], "transformation")) == "transform" and (
+            guard_facts(tcfg, tcfg.node_for(c2[0])) or draws):
+        rr.bad(t, c2[0], "a transformed copy is only sometimes a component of the shared outline; otherwise the outline is drawn again into a new glyph: "
+               "congruent (e.g. mirrored) copies are stored separately", construct="_create_transformed_glyph: component is conditional / outline re-drawn")
+    elif len(c2) == 1 and norm(kwarg(c2[0], "baseGlyph")) == "paint.glyph" and norm(kwarg(c2[0], "transformation")) == "transform":
+        rr.ok("_create_transformed_glyph: Component(baseGlyph=paint.glyph, transformation=transform), unconditionally")
     else:
         rr.bad(t, t.node, "_create_transformed_glyph does not wrap the paint's glyph in the given transform", construct="_create_transformed_glyph: Component")
     if any("glyphOrder +=" in norm(st) or "glyphOrder = " in norm(st) for st in t.body):
